@@ -58,7 +58,7 @@ def tree_obligations(prefix, fam, defines, variant="dbg", weight_cap=120, max_ca
         maxn = max(len(s["bytes"]) for s in b)
         maxnodes = max(len(s["outcome"].nodes) for s in b)
         src = sk.c_trees(b)
-        obls.append(Obl("%s_batch%03d_%s" % (prefix, bi, variant), "h_ser.c", defines, variant=variant, unwind=max(maxn + 9 * maxnodes + 8, 40),
+        obls.append(Obl("%s_batch%03d_%s" % (prefix, bi, variant), "h_ser.c", defines, variant=variant, unwind=max(maxn + 9 * maxnodes + 8, 52),
                         gen_src={"trees.h": src}, timeout=timeout, leak=leak, funcs=funcs or [], mem_gb=mem_gb, flags=flags or [], ptrcheck=ptrcheck,
                         desc=desc, bounds="%d trees (<= %d nodes each); all scalar values and payload bytes symbolic" % (len(b), maxnodes),
                         sample={"trees": [{"name": s["name"], "nodes": len(s["outcome"].nodes), "built_by": "construction API" if s.get("built") else "cbor_load"} for s in b[:4]]}))
